@@ -20,6 +20,16 @@ pub open spec fn chain_path<T, L>(m: Map<T, Edge<T, L>>, e: Edge<T, L>, n: nat) 
     }
 }
 
+// the labels alone along that path
+pub open spec fn chain_labels<T, L>(m: Map<T, Edge<T, L>>, e: Edge<T, L>, n: nat) -> Seq<L>
+    decreases n,
+{
+    match e {
+        Edge::Empty => Seq::empty(),
+        Edge::Pred(l, p) => if n > 0 { chain_labels(m, m[p], (n - 1) as nat).push(l) } else { Seq::empty() },
+    }
+}
+
 // every visited node has a finite chain back to the root; pending nodes have been visited
 pub open spec fn lq_wf<T, L>(q: LabeledQueue<T, L>) -> bool {
     &&& forall|x: T| #[trigger] q.map@.contains_key(x) ==> exists|n: nat| chain_len(q.map@, q.map@[x], n)
